@@ -680,5 +680,5 @@ def check(ctx, case):
 def search(ctx):
     _q()
     # per worker (quick: 2 workers, thorough: 16); a meta case is 12-30 reconstructions (~80 ms), an analytic one ~10 ms
-    core.run_given(ctx, "meta", meta_cases(), lambda c: check(ctx, c), ctx.n(250, 4000))
-    core.run_given(ctx, "analytic", analytic_cases(), lambda c: check(ctx, c), ctx.n(400, 8000))
+    core.run_given(ctx, "meta", meta_cases(), lambda c: check(ctx, c), ctx.n(200, 4000))
+    core.run_given(ctx, "analytic", analytic_cases(), lambda c: check(ctx, c), ctx.n(350, 8000))
